@@ -8,6 +8,10 @@ VERIF = os.path.dirname(os.path.dirname(os.path.abspath(__file__)))
 TECH = "Lean 4 model + kernel-checked theorems; tables regenerated from source; differential correspondence of the model with the real code; judge on implementation behaviour"
 
 CLAIMS = {
+    "C06": dict(
+        text="Proof: for every disk state, identifier list, renew_delay, random_early_renew and admissible random amount, schedule_meets_spec shows the model of schedule_renewal returns 0 when a file is missing or an identifier is not covered and otherwise a wait inside [notAfter - delay - (rer - 1 ns), notAfter - delay] truncated at 0; never_longer, never_negative_or_overflowing, no_empty_range, fresh_cert_waits, backoff_in_bounds complete the statement; far_future_old_is_false / old_agrees_below_limit keep the repaired i32 overflow expressible. Tie: the real Certificate::schedule_renewal is run on certificates made by vhelper (notAfter from far past to far future, SAN subsets/supersets/permutations, files absent or corrupt) and judged by Spec.C06.holdsOutcome, the same predicate the theorem is about.",
+        note="Trusted: Lean kernel + {propext, Classical.choice, Quot.sound}; Lean compiler; probe; vhelper; OpenSSL's ASN1_TIME_diff and X.509 parsing (modelled: the difference in seconds is an input); the jitter distribution is not tested (whole interval accepted); 2 s clock slack.",
+        ref="DESIGN.md section 7 C06"),
     "C19": dict(
         text="Proof (partial): period_grammar proves, for every string, that the model of parse_duration accepts exactly the documented grammar with every number/product/sum fitting 64 bits and returns the sum of the parts, and period_total that it has no panic outcome; the model is tied to duration.rs by the regenerated unit table (gen_unit_table) and by exact comparison with the real parse_duration on generated strings. Start-up totality for whole configurations (hook-group cycles, include cycles, zero/huge rate limits, malformed TOML) is validated by driving the real start-up path and first request on a hazard catalogue and field mutations; the toml/serde layer is modelled-not-verified.",
         note="Trusted: Lean kernel + {propext, Classical.choice, Quot.sound}; the Lean compiler for acmed_model; py/gen.py; the in-crate probe; nom/toml/serde semantics (transliterated or validated, not proved).",
